@@ -217,10 +217,10 @@ func runHistory(c *core.Ctx, api int, h []int) (*streamRun, bool) {
 func init() {
 	core.Register(&core.Prop{
 		ID: "C06", Level: "model_checking",
-		Rule:        "Explicit-state breadth-first search over histories on one stream: alphabet of 14 values (int, long, empty and non-empty string, bytes, date, nil, typed list, untyped list, named map, struct by value, a pointer a1, a struct containing a1 - so that a repeat of a1 is a back-reference to an object sent earlier - and a 3-class struct) written through one encoder, reads through one decoder lagging by 0..2 values, through both API pairs (Encoder.WriteObject/Decoder.ReadObject and Serializer.WriteTo+Write/ReadFrom+Read); successor = replay of the history on fresh instances + one operation; states are deduplicated by a canonical form of the private per-stream tables (class lists, reference counter and registered alphabet pointers, type list, reference list types) read through the verif hooks, plus the pending values. Depth 6 (quick) / 8 (thorough); plus the 50-step histories x^50 and (x y)^25 for every ordered pair. Oracle after the i-th read: value equals the i-th written with stream-wide pointer pairing (a repeat of a1 is the same pointer), the no-read-ahead reader's offset equals the encoder offset after the i-th write, the dynamic type is a documented one. Non-trivial = history with at least one read of a container; distinct = distinct canonical states.",
+		Rule:        "Explicit-state breadth-first search over histories on one stream: alphabet of 14 values (int, long, empty and non-empty string, bytes, date, nil, typed list, untyped list, named map, struct by value, a pointer a1, a struct containing a1 - so that a repeat of a1 is a back-reference to an object sent earlier - and a 3-class struct) written through one encoder, reads through one decoder lagging by 0..2 values, through both API pairs (Encoder.WriteObject/Decoder.ReadObject and Serializer.WriteTo+Write/ReadFrom+Read); successor = replay of the history on fresh instances + one operation; states are deduplicated by a canonical form of the private per-stream tables (class lists, reference counter and registered alphabet pointers, type list, reference list types) read through the verif hooks, plus the pending values. Depth 8 (quick) / 10 (thorough); plus the 50-step histories x^50 and (x y)^25 for every ordered pair. Oracle after the i-th read: value equals the i-th written with stream-wide pointer pairing (a repeat of a1 is the same pointer), the no-read-ahead reader's offset equals the encoder offset after the i-th write, the dynamic type is a documented one. Non-trivial = history with at least one read of a container; distinct = distinct canonical states.",
 		Assumptions: []string{"canonical state = private tables + pending values; merging states with equal canonical form assumes equal futures (tables are the only per-stream state)", "values are drawn from those that pass C01 alone"},
 		Units: func(tier string) []core.Unit {
-			depth := tierPick(tier, 6, 8)
+			depth := tierPick(tier, 8, 10)
 			var us []core.Unit
 			for api := 0; api < 2; api++ {
 				for first := 0; first < c06Alphabet; first++ {
